@@ -121,7 +121,7 @@ class C16(Check):
     def spaces(self, tier):
         Q = tier == "quick"
         plan = [("full", 3, 1), ("qmdonly", 4, 2), ("values", 3, 1), ("held", 4, 2)] if Q else \
-            [("full", 4, 2), ("qmdonly", 5, 2), ("values", 4, 2), ("held", 5, 2)]
+            [("full", 3, 1), ("qmdonly", 4, 2), ("values", 4, 2), ("held", 5, 2)]  # every derived stream is executed: depth costs more now
         out = []
         for mname, depth, plen in plan:
             m = self._model(mname)
